@@ -519,6 +519,22 @@ theorem version_is_max_plus_one (s : State) (a : SaveReq) (s' : State) (ev : Eve
       · have := hlt e h1; simp only [mkEvent]; omega
     · exact le_maxVer _ (editedRow r a (maxVer s.ents + 1) nsId) ((mem_replaceRow _ _ _).mpr (Or.inl ⟨rfl, r, hrm, rfl⟩))
 
+/-- every successful edit — NO hypothesis on the payload: also one that re-saves the entity unchanged (same name, data, delete
+    time) — gets the fresh maximal version, which is greater than the version it named, appends exactly one history row and leaves
+    the entity's row at the new version (so the journal reports it) -/
+theorem edit_assigns_fresh_max_version (s : State) (a : SaveReq) (s' : State) (ev : Event) (h : save s a = (s', .ok ev false)) :
+    ev.version = maxVer s.ents + 1 ∧ a.oldVersion < ev.version ∧ s'.hist = s.hist ++ [ev] ∧
+    ∃ r' ∈ s'.ents, r'.id = a.id ∧ r'.version = ev.version := by
+  have hs := save_shape .fixed s a
+  unfold save at h
+  rw [h] at hs
+  cases hs with
+  | edited nsId r hns hr hv hc hck hlate hb he htyp =>
+    obtain ⟨hrm, hrid⟩ := rowOf_some hr
+    have hle := le_maxVer _ _ hrm
+    refine ⟨rfl, by simp only [mkEvent]; omega, rfl, editedRow r a (maxVer s.ents + 1) nsId, ?_, hrid, rfl⟩
+    exact (mem_replaceRow _ _ _).mpr (Or.inl ⟨rfl, r, hrm, rfl⟩)
+
 /-- a failed save changes nothing -/
 theorem failed_save_unchanged (s : State) (a : SaveReq) (e : Err) (h : (save s a).2 = .err e) : (save s a).1 = s := by
   have hs := save_shape .fixed s a
@@ -1899,6 +1915,33 @@ def rounds5 : List Round :=
   [⟨[], 1⟩, ⟨[.save (mk 9 3 3 false tMetric)], 1⟩, ⟨[.save (mk 5 2 2 false tMetric 1)], 1⟩, ⟨[], 1⟩, ⟨[], 1000⟩]
 example : (pagingSession cfg0 s3 0 [] rounds5).2.1 = 5 ∧ maxVer (pagingSession cfg0 s3 0 [] rounds5).1.ents = 5 ∧
     ((pagingSession cfg0 s3 0 [] rounds5).2.2.map (fun e => (e.id, e.version))) = [(1, 1), (2, 2), (3, 4), (2, 5)] := by decide
+
+-- re-saving an entity UNCHANGED is an edit like any other. Dashboard w3 is created (id 4, version 4); the identical request from
+-- version 4 succeeds with version 5; repeated from the now stale version 4 it is refused; two such requests racing: one winner
+def dash (oldVersion : Nat) (create : Bool) : SaveReq := mk 3 (if create then 0 else 4) oldVersion create tDashboard
+def s4 : State := (save s3 (dash 0 true)).1
+example : (save s4 (dash 4 false)).2 = .ok (mkEvent (dash 4 false) 4 5 0) false := by decide
+example : (save (save s4 (dash 4 false)).1 (dash 4 false)).2 = .err .invalidVersion := by decide
+example : okCount s4 [dash 4 false, dash 4 false, dash 4 false] = 1 := by decide
+example : (journal (save s4 (dash 4 false)).1 4 1000).map (fun e => (e.id, e.version)) = [(4, 5)] := by decide
+
+/-- the seeded variant C15-r4-2 ("nothing changed" fast path for dashboards: success with the OLD version, nothing written), as a
+    function next to the model, and what it breaks: the accepted edit does not get a version above the existing maximum (the reply says 4, the
+    named version, where `edit_assigns_fresh_max_version` demands 5), the named version stays current so the same request is
+    accepted again and again, and the journal after version 4 stays empty -/
+def saveNoopFastPath (s : State) (a : SaveReq) : State × SaveOut :=
+  match rowOf s.ents a.id with
+  | some r =>
+    if a.typ == tDashboard && !a.create && rowMatches .fixed r a && r.name == a.name && r.data == a.data && r.dataLen == a.dataLen
+        && r.deletedAt == a.deleteTime then
+      (s, .ok { mkEvent a r.id r.version 0 with updatedAt := r.updatedAt % two32 } false)
+    else save s a
+  | none => save s a
+example : saveNoopFastPath s4 (dash 4 false) = (s4, .ok (mkEvent (dash 4 false) 4 4 0) false) := by decide
+example : ¬ (∀ ev, (saveNoopFastPath s4 (dash 4 false)).2 = .ok ev false → ev.version = maxVer s4.ents + 1) := by
+  intro h; exact absurd (h (mkEvent (dash 4 false) 4 4 0) (by decide)) (by decide)
+example : (saveNoopFastPath (saveNoopFastPath s4 (dash 4 false)).1 (dash 4 false)).2 = .ok (mkEvent (dash 4 false) 4 4 0) false := by decide
+example : journal (saveNoopFastPath s4 (dash 4 false)).1 4 1000 = [] := by decide
 
 -- long-poll: client 1 parked at From 2 (it holds everything up to 2), client 2 parked at From 3 = the version of the pending event
 -- of entity 3; the broadcast reads from the smaller From: client 1 gets version 3, client 2 gets nothing and stays parked
